@@ -59,7 +59,13 @@ pub trait RollingFinal<T>: Vec1View<T> {
             window,
             |arr| {
                 let acc_func = |acc: f64, (v, c): (T, f64)| acc + v.cast() * c;
-                arr.titer().zip(coef.titer()).fold(0., acc_func).cast()
+                // a warm-up window is shorter than `window`: align its most recent
+                // element with the last coefficient
+                let skip = window - arr.len();
+                arr.titer()
+                    .zip(coef.titer().skip(skip))
+                    .fold(0., acc_func)
+                    .cast()
             },
             out,
         )
